@@ -35,28 +35,47 @@ def _layer_of(key: Any) -> str:
     return str(name)
 
 
-class Canon:
-    """Canonical, token-free task names: ``(layer-prefix#ordinal, *indices)``."""
+def _idx_of(key: Any) -> Tuple:
+    rest = tuple(key[1:]) if isinstance(key, tuple) else ()
+    return tuple(r if isinstance(r, (int, str)) else str(r) for r in rest)
 
-    def __init__(self, dsk: Dict[Any, Any], depth: Dict[Any, int]):
-        by_prefix: Dict[str, List[Tuple[int, str]]] = {}
-        seen = set()
+
+class Canon:
+    """Canonical, token-free task names: ``(layer-prefix#ordinal, *indices)``.
+
+    Layers whose names differ only by a token are told apart by a structural signature
+    (Weisfeiler-Lehman refinement over the task graph: own prefix and indices, labels of
+    dependencies and of dependents), never by the token itself -- tokens may depend on
+    temp paths or uuids, the structure does not."""
+
+    ROUNDS = 6
+
+    def __init__(self, dsk: Dict[Any, Any], deps: Dict[Any, List[Any]], dependents: Dict[Any, List[Any]], depth: Dict[Any, int]):
+        from .core import H
+
+        lab = {k: H(_HEX.sub("", _layer_of(k)), _idx_of(k)) for k in dsk}
+        sdeps = {k: tuple(set(v)) for k, v in deps.items()}
+        sdpts = {k: tuple(set(v)) for k, v in dependents.items()}
+        for _ in range(self.ROUNDS):
+            lab = {k: hash((lab[k], tuple(sorted(lab[d] for d in sdeps[k])), tuple(sorted(lab[d] for d in sdpts[k])))) for k in dsk}
+        layers: Dict[str, List[Any]] = {}
         for k in dsk:
-            ln = _layer_of(k)
-            if ln in seen:
-                continue
-            seen.add(ln)
-            by_prefix.setdefault(_HEX.sub("", ln), []).append((depth[k], ln))
+            layers.setdefault(_layer_of(k), []).append(k)
+        by_prefix: Dict[str, List[Tuple[int, int, int, str]]] = {}
+        for pos, (ln, keys) in enumerate(layers.items()):
+            sig = hash(tuple(sorted(lab[k] for k in keys)))
+            by_prefix.setdefault(_HEX.sub("", ln), []).append((min(depth[k] for k in keys), sig, pos, ln))
         self.layer: Dict[str, str] = {}
+        self.ambiguous = 0
         for prefix, lst in by_prefix.items():
             lst.sort()
-            for i, (_, ln) in enumerate(lst):
+            for i, (d, sig, _, ln) in enumerate(lst):
+                if i and lst[i - 1][:2] == (d, sig):
+                    self.ambiguous += 1  # structurally identical layers: order of appearance decides
                 self.layer[ln] = prefix if len(lst) == 1 else f"{prefix}#{i}"
 
     def __call__(self, key: Any) -> Tuple:
-        ln = _layer_of(key)
-        rest = tuple(key[1:]) if isinstance(key, tuple) else ()
-        return (self.layer[ln], *[r if isinstance(r, (int, str)) else str(r) for r in rest])
+        return (self.layer[_layer_of(key)], *_idx_of(key))
 
 
 def _sort_key(c: Tuple) -> Tuple:
@@ -74,7 +93,7 @@ class DaskSim:
         transport: float = 0.0,
         task_transport: bool = False,
         recompute: float = 0.0,
-        pure: Optional[Callable[[Tuple], bool]] = None,
+        pure: Optional[Callable[[Tuple, Dict[Any, Any], Any], bool]] = None,
         stall: float = 0.0,
         kernel: Optional[Kernel] = None,
         step_budget: int = 200000,
@@ -89,7 +108,8 @@ class DaskSim:
         self.transport = transport
         self.task_transport = task_transport
         self.recompute = recompute
-        self.pure = pure or (lambda c: False)
+        self.pure = pure or (lambda c, data, value: False)
+        self.ambiguous_layers = 0
         self.stall = stall
         self.kernel = kernel
         self.step_budget = step_budget
@@ -147,7 +167,8 @@ class DaskSim:
                     q.append(d)
         if len(depth) != len(dsk):
             raise HarnessError("cycle in task graph")
-        canon = Canon(dsk, depth)
+        canon = Canon(dsk, deps, dependents, depth)
+        self.ambiguous_layers = canon.ambiguous
         cname = {k: canon(k) for k in dsk}
         if self.tag:
             cname = {k: (f"{self.tag}:{c[0]}", *c[1:]) for k, c in cname.items()}
@@ -198,7 +219,7 @@ class DaskSim:
         def run_inline(k):
             task, data = prepare(k)
             v = task(data)
-            if self.recompute and self.pure(cname[k]) and ch.fault("recompute", cname[k], self.recompute):
+            if self.recompute and self.pure(cname[k], data, v) and ch.fault("recompute", cname[k], self.recompute):
                 task2, data2 = prepare(k)
                 v2 = task2(data2)
                 if ch.fault("recompute_keep_second", cname[k], 0.5):
